@@ -317,6 +317,54 @@ func (it *Interp) localMatMethod(m *LocalMat, name string, call *ast.CallExpr) V
 			}
 		}
 		return v
+	case "T", "MagicT", "ConstT":
+		// transposed view: shares the element locations
+		r := &LocalMat{Rows: m.Cols, Cols: m.Rows, Cells: map[string]*Loc{}}
+		for i := 0; i < m.Rows; i++ {
+			for j := 0; j < m.Cols; j++ {
+				r.Cells[matKey(j, i)] = m.Cells[matKey(i, j)]
+			}
+		}
+		return r
+	case "Set":
+		if src, ok := it.eval(call.Args[0]).(*LocalMat); ok && src.Rows == m.Rows && src.Cols == m.Cols {
+			for k, c := range src.Cells {
+				m.Cells[k].Val = c.Val
+				m.Cells[k].Written = true
+			}
+			return NilVal{}
+		}
+	case "SetIdentity":
+		for i := 0; i < m.Rows; i++ {
+			for j := 0; j < m.Cols; j++ {
+				v := sym.Zero()
+				if i == j {
+					v = sym.One()
+				}
+				m.Cells[matKey(i, j)].Val = v
+			}
+		}
+		return NilVal{}
+	case "MdotM":
+		a, ok1 := it.eval(call.Args[0]).(*LocalMat)
+		b, ok2 := it.eval(call.Args[1]).(*LocalMat)
+		if ok1 && ok2 && a.Cols == b.Rows && m.Rows == a.Rows && m.Cols == b.Cols {
+			vals := map[string]*sym.Term{}
+			for i := 0; i < m.Rows; i++ {
+				for j := 0; j < m.Cols; j++ {
+					s := sym.Zero()
+					for k := 0; k < a.Cols; k++ {
+						s = sym.Add(s, sym.Mul(a.Cells[matKey(i, k)].Val, b.Cells[matKey(k, j)].Val))
+					}
+					vals[matKey(i, j)] = s
+				}
+			}
+			for k, v := range vals {
+				m.Cells[k].Val = v
+				m.Cells[k].Written = true
+			}
+			return m
+		}
 	case "SwapRows", "SwapColumns":
 		a, ok1 := constIndex(it.evalTerm(call.Args[0]))
 		b, ok2 := constIndex(it.evalTerm(call.Args[1]))
@@ -421,4 +469,128 @@ func (it *Interp) concreteLoop(x *ast.ForStmt) bool {
 		}
 	}
 	return true
+}
+
+// dynNamed returns the named type a value dynamically has, if the interpreter knows it.
+func dynNamed(v Value) *types.Named {
+	switch t := v.(type) {
+	case *StructVal:
+		return namedOf(derefType(t.T))
+	}
+	return nil
+}
+
+// hasDynType: does the value's dynamic type match want (pointer-ness is not tracked for objects: T and *T both match)?
+func (it *Interp) hasDynType(v Value, want types.Type) bool {
+	wn := namedOf(derefType(want))
+	if wn == nil {
+		// interface targets: any modelled value satisfies a container/scalar interface
+		_, isIface := want.Underlying().(*types.Interface)
+		return isIface
+	}
+	if _, isIface := wn.Underlying().(*types.Interface); isIface {
+		return true
+	}
+	if dn := dynNamed(v); dn != nil {
+		return dn.Obj() == wn.Obj()
+	}
+	return false // local vectors/matrices, numbers: not one of the concrete library types
+}
+
+// typeSwitch: `switch a := v.(type) { case T: ... }` decided from the dynamic type of v. When both T and *T are listed
+// (option structs: `case *InSitu:` and `case InSitu: panic("must be passed by reference")`) the clause that does not
+// panic immediately is taken, i.e. the value is assumed to have been passed the way the API asks for.
+func (it *Interp) typeSwitch(x *ast.TypeSwitchStmt) {
+	it.env = append(it.env, map[types.Object]Value{})
+	defer func() {
+		if len(it.env) > 0 {
+			it.env = it.env[:len(it.env)-1]
+		}
+	}()
+	if x.Init != nil {
+		it.stmt(x.Init)
+	}
+	var subject ast.Expr
+	var bindName *ast.Ident
+	switch a := x.Assign.(type) {
+	case *ast.AssignStmt:
+		if len(a.Lhs) == 1 && len(a.Rhs) == 1 {
+			bindName, _ = a.Lhs[0].(*ast.Ident)
+			if ta, ok := ast.Unparen(a.Rhs[0]).(*ast.TypeAssertExpr); ok {
+				subject = ta.X
+			}
+		}
+	case *ast.ExprStmt:
+		if ta, ok := ast.Unparen(a.X).(*ast.TypeAssertExpr); ok {
+			subject = ta.X
+		}
+	}
+	if subject == nil {
+		it.undecided(x.Pos(), "type switch form")
+	}
+	v := it.eval(subject)
+	var def *ast.CaseClause
+	var cands []*ast.CaseClause
+	for _, cs := range x.Body.List {
+		cc := cs.(*ast.CaseClause)
+		if cc.List == nil {
+			def = cc
+			continue
+		}
+		for _, te := range cc.List {
+			if id, ok := te.(*ast.Ident); ok && id.Name == "nil" {
+				if _, isNil := v.(NilVal); isNil {
+					cands = append(cands, cc)
+				}
+				continue
+			}
+			tv, ok := it.info.Types[te]
+			if !ok {
+				continue
+			}
+			if _, isNil := v.(NilVal); isNil {
+				continue
+			}
+			if wn := namedOf(derefType(tv.Type)); wn != nil {
+				if _, isIface := wn.Underlying().(*types.Interface); isIface {
+					continue // interface cases are not decided here
+				}
+				if dn := dynNamed(v); dn != nil && dn.Obj() == wn.Obj() {
+					cands = append(cands, cc)
+				}
+			}
+		}
+	}
+	pick := def
+	if len(cands) == 1 {
+		pick = cands[0]
+	} else if len(cands) > 1 {
+		pick = cands[0]
+		for _, cc := range cands {
+			panics := false
+			if len(cc.Body) > 0 {
+				if es, ok := cc.Body[0].(*ast.ExprStmt); ok {
+					if ce, ok := es.X.(*ast.CallExpr); ok {
+						if id, ok := ce.Fun.(*ast.Ident); ok && id.Name == "panic" {
+							panics = true
+						}
+					}
+				}
+			}
+			if !panics {
+				pick = cc
+				break
+			}
+		}
+	}
+	if pick == nil {
+		return
+	}
+	if bindName != nil && bindName.Name != "_" {
+		// the symbol declared by the switch is a distinct object per clause
+		if o := it.info.Implicits[pick]; o != nil {
+			it.env[len(it.env)-1][o] = v
+		}
+	}
+	it.block(pick.Body)
 }
